@@ -294,4 +294,14 @@ theorem every_transport_announced (D : DialerParams) (hD : D.Good) (id transport
 /-- Witness: with the knock sent once by `Dial`, the second transport arrives unannounced and goes to the main listener -/
 theorem knock_once_witness : transportTags ⟨false⟩ 7 2 = [Tag.brokered 7, Tag.main] := by decide
 
+/-- **A re-accepted id keeps its pending entry** when the listener it replaced is closed a second time: the next knock for
+the id reaches the new listener's knock loop. -/
+theorem reaccepted_entry_survives (K : KnockLoopParams) (hK : K.Good) (oldClosedAgain : Bool) :
+    reacceptedEntrySurvives K oldClosedAgain = true := by
+  have h : K.closeRemovesOwnEntryOnly = true := hK.2
+  simp [reacceptedEntrySurvives, h]
+
+/-- Witness: removing the entry by id, the second close of the old listener orphans the new listener's knock loop -/
+theorem delete_by_id_witness : reacceptedEntrySurvives ⟨true, false⟩ true = false := by decide
+
 end GoPlugin.Props.C08
